@@ -14,7 +14,7 @@ func init() {
 		Meta: report.Meta{
 			Property: "C02",
 			Rule: "G1 typing: every unary and binary operator x every ordered pair of operands from {0,1,2,-3,0.5,NaN,+Inf,-Inf,true,false,\"\",\"a\",\"b\",$n,$b,$s,$unknown}; " +
-				"G2 grouping: every expression tree with <=2 (quick) / <=3 (thorough, reduced operands) operators over all 14 binary and 2 unary operators, printed with minimal, full and redundant parentheses and every operator spelling; " +
+				"G1-again: every operator on literal operands evaluated three times on one runner; G2 grouping: every expression tree with <=2 (quick) / <=3 (thorough, reduced operands) operators over all 14 binary and 2 unary operators, printed with minimal, full and redundant parentheses and every operator spelling; " +
 				"G3 evaluation order: every operator and nested call shapes with probe functions (also failing ones) as operands; values are captured typed by a host function (<<call cap(expr)>>) and the probe log is compared with the reference evaluator; " +
 				"a case is one (expression, rendering); non-trivial = expression with at least one operator",
 			StatesMean:  "distinct (expression, rendering) cases; transitions = real Next calls",
@@ -161,6 +161,44 @@ func runC02(ctx *report.Ctx) {
 			return
 		}
 		exprCase(ctx, c, "G1-unary", e, lay)
+	})
+
+	// G1-again: the same expression statement evaluated three times on one runner (a node re-entered through a
+	// jump): the value of an expression does not depend on earlier evaluations of it
+	literalOperands := g1Operands[:13]
+	part(ctx, "G1-again", -1, func(c *explore.Chooser) {
+		var e *yc.Expr
+		if c.Choose(2, "arity") == 0 {
+			op := ops[c.Choose(len(ops), "op")]
+			e = yc.EBinary(op, literalOperands[c.Choose(len(literalOperands), "left")](), literalOperands[c.Choose(len(literalOperands), "right")]())
+		} else {
+			in := literalOperands[c.Choose(len(literalOperands), "operand")]()
+			switch c.Choose(4, "unary") {
+			case 0:
+				e = yc.ENegate(in)
+			case 1:
+				e = yc.ENotOf(in)
+			case 2:
+				e = yc.EBinary("+", yc.ENumber(3), yc.ENegate(in))
+			case 3:
+				e = yc.ECallOf("k", yc.ENegate(in), in)
+			}
+		}
+		if !c.Mine() {
+			return
+		}
+		p := &yc.Program{Nodes: []*yc.Node{{Title: "A", Body: []*yc.Stmt{yc.Call("cap", e), yc.Line("again"), yc.Jump("A")}}}}
+		srcs := yc.Render(p, nil)
+		ctx.Current("G1-again: " + srcs[0])
+		mm, st := yc.Walk(p, srcs, exprHost, yc.WalkOpts{MaxSteps: 6, MaxJumps: 2, CompareLog: true, StrictErrors: true})
+		ctx.AddEvals(1, 1)
+		ctx.AddStates(1)
+		ctx.AddTransitions(st.Steps)
+		ctx.AddTraces(1)
+		if mm != nil {
+			ctx.Violation(report.Violation{Clause: "expr-again-" + mm.Clause, Witness: yc.RenderExpr(e, nil) + " evaluated repeatedly", Detail: fmt.Sprintf("%s; observed trace %v", mm.Detail, mm.Trace),
+				Choices: c.Choices(), Part: "G1-again", Extra: map[string]any{"scripts": srcs, "go_test": goTestFor(srcs, "abc", mm.Args, mm.Detail)}})
+		}
 	})
 
 	// G2: grouping. Trees are built by the chooser: shape, operators, operands.
